@@ -105,6 +105,8 @@ func init() {
 			"Not decided: that CalcStrides* compute the right products and that Ltoi's sum is the rank in data order (value arithmetic); behaviour of the column-major converting constructor. Round 7: (EP) every refusal a function constructs itself precedes any effect on the receiver/parameters, deferred closures included.",
 		Run: func(rc *rules.RC) {
 			rules.S22(rc)
+			rules.O8(rc)  // a clone that shares its saved access pattern lets the clone's release zero the original's shape
+			rules.F2(rc)  // the decoder installs the strides and order it read (a decoded column-major tensor addresses by them)
 			rules.T13(rc)
 			rules.FL(rc, 2)
 			rules.O6(rc)
@@ -141,6 +143,8 @@ func init() {
 			rules.S5(rc)
 			rules.S9(rc)
 			rules.S12(rc)
+			rules.S10(rc) // AP.S indexes one stride per axis: both stride calculators give every non-scalar shape one
+			rules.S2(rc)  // the offset helper behind At on a view
 			rules.L0(rc, func(fn string) bool { return !strings.Contains(fn, "prepData") })
 		},
 	})
@@ -152,6 +156,9 @@ func init() {
 		Run: func(rc *rules.RC) {
 			rules.O11(rc, 1)
 			rules.S22(rc)
+			rules.CF(rc)
+			rules.K1w(rc, func(stem string) bool { return strings.Contains(stem, "denseTranspose") }, 4) // Reshape after T() materialises through these kernels
+			rules.T8(rc)
 			rules.DC(rc, "C13")
 			rules.T14(rc)
 			rules.T13(rc)
@@ -185,6 +192,7 @@ func init() {
 			rules.S18(rc)
 			rules.T9(rc)
 			rules.T14(rc)
+			rules.CF(rc)
 			rules.T10(rc)
 			rules.EP(rc, nil, 100)
 			rules.B2(rc)
@@ -209,6 +217,8 @@ func init() {
 		Run: func(rc *rules.RC) {
 			rules.L0(rc, func(fn string) bool { return strings.HasSuffix(fn, ".IsVectorLike") }) // selects the iterator's unit-step fast path
 			rules.I13(rc)
+			rules.I3m(rc)
+			rules.I14(rc)
 			rules.I11(rc)
 			rules.I10(rc)
 			rules.I9(rc)
@@ -319,6 +329,7 @@ func init() {
 			"(LD) on every feasible path of MatVecMul, MatMul, Outer and Inner each argument of the gemv/gemm/ger/dot call - transposition flags, dimensions, leading dimensions, buffers, operand order - is the one the operand's data order, lazy-transpose state and logical shape require under the row-major BLAS convention (term propagation along the path against a derived reference; 41 layout cases); (P2) the gateways and their callers do not write their operands (Dot and Outer do: known findings 13, 14). Not decided: the routines themselves (trusted by name), the reshape/permutation arithmetic of TensorMul/Contract, Dot's dispatch table beyond delegation, rounding. Round 7: (K1w/T8/T9) the copying transpose kernels the general contraction relies on; (PI) parameter integrity of the wrappers; L1 goals on the float engines' Inner (finding 79).",
 		Run: func(rc *rules.RC) {
 			rules.AL(rc, 0)
+			rules.SC(rc)
 			rules.T7(rc)
 			rules.LD2(rc)
 			rules.O8(rc)
@@ -413,6 +424,9 @@ func init() {
 			// predicates and the view marker the view constructors leave behind
 			rules.S9(rc)
 			rules.L0(rc, func(fn string) bool { return !strings.Contains(fn, "prepData") })
+			rules.LC(rc, 18) // a new whole-buffer copy inside Materialize is what the encoders would write
+			rules.MZ(rc)
+			rules.RG(rc) // the protobuf / flatbuffers decoders resolve element types by name from the registration tables
 			rules.LF(rc, 20)
 			rules.S14(rc)
 			rules.K3(rc, fileFilter("dense_io.go", "dense_mask_filling.go"), 2, 25)
@@ -427,6 +441,7 @@ func init() {
 			rules.SM(rc)
 			rules.LA(rc)
 			rules.SO(rc)
+			rules.MZ(rc)
 			rules.ND(rc, 36)
 			rules.T7(rc)
 			rules.S19(rc)
@@ -482,6 +497,8 @@ func init() {
 		Assume: []string{"locks are taken on package-level mutexes by direct calls (the repo's only idiom); interprocedural lock holding is not modelled"},
 		Run: func(rc *rules.RC) {
 			rules.PO(rc, 4)
+			rules.SC(rc)
+			rules.CF(rc)
 			rules.O8(rc)
 			rules.O9(rc, 20)
 			rules.RP(rc, nil, 0)
@@ -503,6 +520,8 @@ func init() {
 		Assume: []string{"interface calls resolve to the module's implementing types (CHA restricted to the module)", "flow-insensitive origin tracing through locals and captured variables (over-approximates aliases)"},
 		Run: func(rc *rules.RC) {
 			rules.PO(rc, 4)
+			rules.SC(rc)
+			rules.CF(rc)
 			rules.O11(rc, 1)
 			rules.EP(rc, nil, 100)
 			rules.LGuards(rc, "C19")
@@ -634,6 +653,8 @@ func init() {
 			rules.K1op(rc, []string{"api_arith.go", "api_cmp.go", "api_unary.go", "api_minmax.go", "dense_arith.go", "dense_cmp.go", "defaultengine_arith.go", "defaultengine_cmp.go", "defaultengine_unary.go", "defaultengine_minmax.go"}, 90)
 			rules.K4(rc, []string{"eng_arith.go", "eng_minmaxbetween.go", "eng_cmp.go", "eng_unary.go"}, 1000)
 			rules.K12(rc, 80)
+			rules.KB(rc)
+			rules.RG(rc)
 		},
 	})
 }
